@@ -5,7 +5,7 @@
    CloseConnection / RemoveControlConnection / Unregister / KickOld / stale sweep / clock ticks / raw Register /
    raw UpdateAuth / tunnel conversion / transport write failure) under ANY configuration k (connection limits,
    heartbeat timeout); by_client / by_conn are GetControlConnectionByClientID / GetControlConnection. *)
-From TX Require Import Base.Threads Model.Registry Proofs.Registry Proofs.RegistryCounts.
+From TX Require Import Base.Threads Model.Registry Model.RegistryMicro Proofs.Registry Proofs.RegistryCounts Proofs.RegistryMicro.
 Open Scope N_scope.
 
 (* (a) looking a client up by id returns nothing or a registered, authenticated connection whose ClientID is that
@@ -100,6 +100,55 @@ Theorem C07_accept_close_roundtrip :
   counts (run Current k s [Accept c; CloseConn c]) = counts s.
 Proof. intros k ops c. exact (accept_close_roundtrip Current k c _ (wf2_run Current k ops init wf2_init)). Qed.
 Print Assumptions C07_accept_close_roundtrip.
+
+(* ---- lock-section granularity (Model/RegistryMicro.v) ----
+   handleHandshake = A (get-or-create, auth handler, reconcile) | W (response write) | B1 GetByClientID | B2 Remove(old) |
+   B3 UpdateAuth;  CloseConnection = C1 (session map) | C1b (Stream.Close) | C2 (registry) | C3 (tunnel registry);
+   every other operation is one step.  `closing sh` = connections whose transport a CloseConnection has closed and
+   whose registry section has not run yet. *)
+
+(* the sections, run back to back, are the method of the sequential model *)
+Theorem C07_handshake_is_its_sections :
+  forall v k c kind x isCtl s, handshake v k c kind x isCtl s = handshake_seq v k c kind x isCtl s.
+Proof. exact handshake_seq_eq. Qed.
+Print Assumptions C07_handshake_is_its_sections.
+
+(* every section preserves the invariant from every state satisfying it, whatever the thread's continuation holds *)
+Theorem C07_section_invariant_inductive :
+  forall (k : cfg) (l : lo) (sh : gst), MG sh -> MG (snd (mstep k l sh)).
+Proof. exact MG_mstep. Qed.
+Print Assumptions C07_section_invariant_inductive.
+
+(* (a) in ANY state of ANY interleaving of the sections of any number of goroutines running any operation lists:
+   a lookup by client id returns nothing or a registered, authenticated connection of exactly that client whose
+   transport is open — or whose CloseConnection is under way (closed, registry section still to run) *)
+Theorem C07_lookup_in_every_section_interleaving :
+  forall (k : cfg) (progs : list (list op)) (sched : list nat) (x c : N),
+  let sh := fst (Threads.run gst lo (fun l sh => mstep k l sh) (ginit, map (fun p => (None, p)) progs) sched) in
+  by_client (g sh) x = Some c ->
+  exists r, by_conn (g sh) c = Some r /\ c_auth r = true /\ c_cid r = x /\ 0 < x /\
+            (mem c (closed (g sh)) = false \/ mem c (closing sh) = true).
+Proof. exact MG_lookup_all. Qed.
+Print Assumptions C07_lookup_in_every_section_interleaving.
+
+(* the registry section of CloseConnection(c) ends that window in every reachable state: c is unregistered, unindexed, unmarked *)
+Theorem C07_close_registry_section_ends_window :
+  forall (k : cfg) (progs : list (list op)) (sched : list nat) (c : N),
+  let sh := fst (Threads.run gst lo (fun l sh => mstep k l sh) (ginit, map (fun p => (None, p)) progs) sched) in
+  let sh' := {| g := registry_remove c (g sh); closing := rem c (closing sh) |} in
+  by_conn (g sh') c = None /\ (forall x, by_client (g sh') x <> Some c) /\ mem c (closing sh') = false.
+Proof. intros k progs sched c. exact (MG_after_C2 c _ (MG_all_interleavings k progs sched)). Qed.
+Print Assumptions C07_close_registry_section_ends_window.
+
+(* the class of change this granularity exists for: if B3 re-registers the connection when UpdateAuth does not find
+   it, a CloseConnection completing between the response write and B3 leaves a closed connection registered and indexed *)
+Theorem C07_reregister_variant_refuted :
+  exists (k : cfg) (c X : N) (s : st) (r' : ctl),
+    hs_phaseA Current k c 0 X (fst (step Current k init (Accept c))) = (s, Some r') /\ write_ok c s = true /\
+    let s' := b3_reregister k c X r' (close_conn c s) in
+    by_client s' X = Some c /\ mem c (closed s') = true /\ mem c (sess s') = false.
+Proof. exact reregister_variant_refuted. Qed.
+Print Assumptions C07_reregister_variant_refuted.
 
 (* the defect of the pinned tree (repaired by fixes/C07-reauth-stale-index.diff), kept as refuted statements:
    Register; UpdateAuth 100; UpdateAuth 200; Remove  leaves id 100 resolving to a closed, unregistered connection *)
